@@ -23,6 +23,32 @@ CLAIMED = {
             "Trusted: the witness tables (their completeness is checked against the constructors' column validations). "
             "Not decided: perturbation invariance of results on data.",
             "DESIGN.md 6/C10"),
+    "C20": ("path enumeration over insert/execute of both data spaces with partial evaluation of branch conditions into overwrite/absence facts; dominance for store-after-success (ast CFG)",
+            "Every store effect on the key->table binding (subscript stores, insert_table/create_table, model_table) is "
+            "reached only on paths that established 'overwrite allowed' or 'key absent'; auto-generated keys pass a freshness "
+            "test after their last assignment on every path; the binding is written only after the fallible operation; "
+            "keys/retrieve/describe read the single binding.",
+            "Trusted: the fact vocabulary (allow_overwrite, key in <binding>). Two store-order defects of DBSpace are known findings. "
+            "Not decided: equivalence with a reference map over arbitrary histories.",
+            "DESIGN.md 6/C20"),
+    "C22": ("dominance/guard polarity on the statement CFG, flow-sensitive def-use for dead-store detection (ast)",
+            "The check switch dominates every schema raise and every _check_spec call with the right polarity; TypeError is "
+            "what is raised; wrapped_fn returns exactly the wrapped function's result with checks before and after; normalised "
+            "set/dict specifications reach the returned value; null cells are never type-checked; missing args/columns are reported.",
+            "Not decided: 'raises exactly when' over all value/spec combinations.",
+            "DESIGN.md 6/C22"),
+    "C24": ("def-use order-source analysis of the ordered helpers; effect analysis of OrderedSet.add on its single backing field (ast)",
+            "ordered_intersect/ordered_diff iterate their first argument filtered by (non-)membership in the second; "
+            "ordered_union/OrderedSet.union consume the first operand before the second and only add; add has exactly one "
+            "keyed store effect on an insertion-ordered mapping; every observer uses that single field.",
+            "Narrow claim. Not decided: equivalence with set over arbitrary operation sequences (MutableSet mixin operators).",
+            "DESIGN.md 6/C24"),
+    "C25": ("def-use completeness of the cache key and of the frame hash; copy-on-return/copy-on-store check (ast)",
+            "The key depends on dialect, SQL text and for every table (unfiltered, sorted) its name and hash; the hash depends "
+            "on shape, column names and a whole-frame, index-inclusive, order-sensitive content hash; get returns a copy and "
+            "store keeps copies; both key through make_cache_key with their own arguments.",
+            "Not decided: collision-freeness of the hash; equality of the returned copy on data.",
+            "DESIGN.md 6/C25"),
     "C26": ("obligation table of documented construction rules: def-use guard dependencies of every raise, one-to-one matching of rules to raises, difference-direction check (ast)",
             "Each documented build-time rule (39 rows over the constructors/builders) is enforced by a raise whose own guard "
             "depends on the inputs the rule talks about, on the failing side of the test, not as a sub-case of another rule, "
